@@ -426,6 +426,92 @@ def describe(case, obs):
     return tags
 
 
+# ------------------------------------------------------------------ panels with more than 256 reference samples
+def gen_big(rng, tier):
+    n = 6 if tier == "quick" else 60
+    for _ in range(n):
+        nref = rng.choice([260, 300, 520])
+        chroms = sorted(rng.sample(["1", "2", "X"], rng.randint(1, 2)), key=cnum)
+        haps = []
+        nsim = rng.randint(2, 4)
+        for h in range(2 * nsim):
+            segs = []
+            for c in chroms:
+                for e in sorted(rng.sample([100, 200, 300, 400], rng.randint(0, 3))) + [MAX]:
+                    segs.append([rng.randint(1, 2), cnum(c), e, 0])
+            haps.append(segs)
+        # the second population sits in the columns from 256 on (or the populations alternate)
+        layout = rng.choice(["second-pop-last", "first-pop-last", "alternating"])
+        yield {"nref": nref, "chroms": chroms, "haps": haps, "layout": layout, "fmt_out": rng.choice([".vcf", ".vcf.gz", ".bcf"]), "pop_field": rng.random() < 0.5, "seed": rng.randrange(2**31)}
+
+
+def _big_panel(case):
+    import random
+
+    rnd = random.Random(case["seed"])
+    n = case["nref"]
+    if case["layout"] == "alternating":
+        pops = ["P1" if i % 2 == 0 else "P2" for i in range(n)]
+    else:
+        first = "P1" if case["layout"] == "second-pop-last" else "P2"
+        pops = [first if i < n // 2 else ("P2" if first == "P1" else "P1") for i in range(n)]
+    refs = [f"R{i}" for i in range(n)]
+    variants = [(f"v{c}_{p}", c, p, ["A", "C", "G", "T"]) for c in case["chroms"] for p in (50, 100, 150, 250, 301, 450, 900)]
+    data = [[(rnd.randrange(4), rnd.randrange(4), 1) for _ in variants] for _ in refs]
+    return refs, pops, variants, data
+
+
+def impl_big(case):
+    import haptools.sim_genotype as sg
+    from haptools.admix_storage import HaplotypeSegment as S
+
+    d = _dir / "big"
+    C.rm_tree(d)
+    d.mkdir(parents=True)
+    refs, pops, variants, data = _big_panel(case)
+    GF.write_vcf_text(d / "ref.vcf", refs, variants, data, contigs=case["chroms"])
+    GF.compress_index(d / "ref.vcf", d / "ref.vcf.gz")
+    with open(d / "model.dat", "w") as f:
+        f.write(f"{len(case['haps']) // 2}\tAdmixed\tP1\tP2\n1\t0\t0.5\t0.5\n")
+    with open(d / "info.tab", "w") as f:
+        for r, p in zip(refs, pops):
+            f.write(f"{r}\t{p}\n")
+    bps = [[S(p, c, e, float(m)) for p, c, e, m in h] for h in case["haps"]]
+    out = str(d / ("out" + case["fmt_out"]))
+    np.random.seed(case["seed"] % 2**32)
+    sg.output_vcf(bps, case["chroms"], str(d / "model.dat"), str(d / "ref.vcf.gz"), str(d / "info.tab"), None, case["pop_field"], True, False, out, SD.silent_log())
+    return read_output(out, {"fmt_out": case["fmt_out"]})
+
+
+def oracle_big(case, obs):
+    """SAMPLE names the reference sample; the allele must be one that sample carries there, the sample must belong to
+    the population the breakpoints give, and within a block the sample does not change"""
+    if "error" in obs:
+        return f"output_vcf raised {obs}"
+    refs, pops, variants, data = _big_panel(case)
+    popof = dict(zip(refs, pops))
+    row = {r: i for i, r in enumerate(refs)}
+    if [v[:3] for v in obs["variants"]] != [[v[0], v[1], v[2]] for v in variants]:
+        return "output variants differ from the reference's"
+    if obs["sample"] is None:
+        return "SAMPLE field missing although requested"
+    for j, v in enumerate(variants):
+        c = cnum(v[1])
+        for s in range(len(case["haps"]) // 2):
+            for k in (0, 1):
+                src = obs["sample"][j][s][k]
+                lab = label_at(case["haps"][2 * s + k], c, v[2])
+                want_pop = ["P1", "P2"][lab - 1]
+                if src not in popof or popof[src] != want_pop:
+                    return f"Sample_{s+1} strand {k+1} at {v[1]}:{v[2]}: SAMPLE {src} ({popof.get(src)}) but the breakpoints say {want_pop}"
+                a = obs["gts"][j][s][k]
+                if a not in data[row[src]][j][:2]:
+                    return f"Sample_{s+1} strand {k+1} at {v[1]}:{v[2]}: allele {a} is not carried by {src} (column {row[src]} of {len(refs)}; it carries {data[row[src]][j][:2]})"
+                if obs["pop"] is not None and obs["pop"][j][s][k] != want_pop:
+                    return f"POP {obs['pop'][j][s][k]} at {v[1]}:{v[2]}, breakpoints say {want_pop}"
+    return None
+
+
 CHECK = Check(
     id="C03",
     title="Simulated genotypes agree with the breakpoints and the reference panel",
@@ -460,6 +546,18 @@ CHECK = Check(
             teardown=teardown,
             nontrivial=lambda c, o: C.jdump(c) if isinstance(o, dict) and "gts" in o and len(o["gts"]) > 1 else None,
             rule="the same panels, flags, regions and formats, but the breakpoints are those the real simulate_gt returns (2-4 generation lines incl. pulses, map with markers at 100..500 bp and 5/40/120 cM per marker so that tracts recombine, region ends before, inside and far beyond the last map coordinate) written by the real write_breakpoints, whose returned objects are handed to output_vcf (exactly the CLI's pipeline) while the .bp file is parsed independently; the oracle reads every output allele back to its reference haplotype and compares its population with the label the simulated breakpoints give that position",
+        ),
+        Section(
+            name="big_panel",
+            theorems=["C03.cell_from_panel"],
+            gen=gen_big,
+            impl=impl_big,
+            oracle=oracle_big,
+            setup=setup,
+            teardown=teardown,
+            nontrivial=lambda c, o: C.jdump(c),
+            describe=lambda c, o: [f"reference-samples={c['nref']}", c["layout"], "out=" + c["fmt_out"]],
+            rule="reference panels of 260-520 samples (two populations, the second one in the columns from 256 on, the first one there, or alternating; random 4-allelic genotypes), SAMPLE always requested: every output allele must be carried by the sample SAMPLE names, that sample must belong to the population the breakpoints give, POP must agree (oracle only: with more than 128 samples the panel cannot be made haplotype-identifiable within uint8 allele indices)",
         ),
     ],
     trusted=["numpy searchsorted/insert/diff/repeat contracts (exercised)", "pysam / pgenlib writing what they are given; cyvcf2 / pgenlib reading the panel (C07/C08)", "_convert_haplotype's recorded outputs are the tape of the run (its choices are checked against the sample-info populations by the oracle)"],
